@@ -5,8 +5,8 @@ CONFIG = {
         "name": "upgrade", "pkg": "./data/bookkeeping/", "run": "^TestVerifC26$",
         "files": ["data/bookkeeping/zz_verif_c26_test.go"],
         "util": [("data/bookkeeping", "bookkeeping")],
-        "env": {"quick": {"VERIF_C26_DEPTH": 7, "VERIF_C26_HIST": 300, "VERIF_C26_STEP": 6000},
-                "thorough": {"VERIF_C26_DEPTH": 9, "VERIF_C26_HIST": 4000, "VERIF_C26_STEP": 80000, "VERIF_C26_MAXLEAVES": 3000000}},
+        "env": {"quick": {"VERIF_C26_DEPTH": 8, "VERIF_C26_HIST": 300, "VERIF_C26_STEP": 6000},
+                "thorough": {"VERIF_C26_DEPTH": 11, "VERIF_C26_HIST": 4000, "VERIF_C26_STEP": 80000, "VERIF_C26_MAXLEAVES": 3000000}},
         "timeout": {"quick": 600, "thorough": 3000},
     }],
     "rule": "real applyUpgradeVote / PreCheck. (1) EVERY vote sequence up to the depth over the alphabet {none, approve, propose(other, delay d) "
